@@ -81,6 +81,8 @@ def det_checkout_recipes(model):
 def run_case(ctx, case, confirm=False):
     run = bobproc.script if confirm else bobproc.direct
     model, edits, mode, jobs = case["model"], case["edits"], case["mode"], case["jobs"]
+    if case.get("toolchains") is not None:
+        model = projgen.add_toolchains(model, case["toolchains"])
     base = ctx.tmpdir()
     W = os.path.join(base, "w")
     X = os.path.join(base, "elsewhere", "deeper", "x")
@@ -169,6 +171,7 @@ def case_st(quick):
         "edits": st.lists(projgen.edit_st, min_size=1, max_size=4 if quick else 7),
         "mode": st.sampled_from(["dev", "dev", "build"]),
         "jobs": st.sampled_from([None, None, 2, 4]),
+        "toolchains": st.sampled_from([None, None, None, 0, 1, 2, 3, 4, 5]),
     })
 
 def check(ctx, case):
